@@ -800,6 +800,19 @@ def double_option(ts):
     return re.search(r'\?\?|\?option\[|option\[\?|option\[option\[', ts) is not None
 
 
+def derivation_ops(steps_in, st_in):
+    """names of the operations that made the object a step works on (following 'on I' references), innermost last"""
+    out = []
+    cur = st_in
+    seen = 0
+    while 'on' in cur[:2] and seen < 50:
+        seen += 1
+        maker = steps_in[cur[cur.index('on') + 1] + 1]
+        out.append(op_name(maker))
+        cur = maker
+    return out
+
+
 def op_name(st_in):
     """the operation of a step (after quiet / on I)"""
     j = 0
@@ -1179,7 +1192,12 @@ def run(cases, tier, rng):
                         # IndexedArray / option node over a VirtualArray whose payload is an option: left unsimplified
                         # (IndexedArray over IndexedOptionArray), on which sort / reduce report an internal inconsistency
                         sig = UNION_SIG
-                    elif v[2] == 'value' and '(bim ' in line:
+                    elif v[2] == 'value' and '(bim ' in line and not (
+                            re.search(r'\(layout (\(par \S+ \S+ )?\(bim ', line) and
+                            all(o in ('range', 'materialize') for o in derivation_ops(steps_in, st_in) + [op_name(st_in)])):
+                        # (a chain of plain range slices of a BitMaskedArray that is the top node is predicted correctly --
+                        # Form::getitem_range turns a BitMaskedForm into a ByteMaskedForm -- so the known finding does not
+                        # cover it; below a record the fields are sliced too and the prediction is wrong: known finding)
                         sig = BITMASK_SIG
                     bump('viol')
                     add('viol', 'step %d %s: the eager array answers, the virtual array raises (%s) although every generation succeeded' %
